@@ -289,3 +289,53 @@ def call_reaches(prog, fn, call, direct, depth=2):
             if call_reaches(prog, g, n, direct, depth - 1):
                 return True
     return False
+
+
+PRINTERS = ("printf", "fprintf", "sprintf", "snprintf", "com_err", "log_out", "log_err", "dbg_printf", "fputs", "puts")
+
+
+def piecewise_loops(fns):
+    """Loops that consume a quantity `total` in pieces: inside the loop `part` is computed from `total` and
+    `total -= part`.  Everything done per piece must use the piece: a call in the loop body that is handed the
+    running total (other than the call that produces the piece, a call that receives `&total`, or a diagnostic
+    print) charges or copies the whole remaining amount once per piece.
+    -> [(fn, total, part, [offending call nodes], n_calls_in_body)]"""
+    out = []
+    for f in fns:
+        subs = [n for n in f.events("S") if n.ev.get("o") == "-=" and T.strip(n.ev["lhs"]).get("k") == "v" and
+                isinstance(n.ev.get("rhs"), dict) and T.strip(n.ev["rhs"]).get("k") == "v"]
+        done = set()
+        for s_ in subs:
+            tot, part = T.path(s_.ev["lhs"]), T.path(s_.ev["rhs"])
+            hb = loop_head(f, s_)
+            if hb is None or (hb, tot, part) in done:
+                continue
+            done.add((hb, tot, part))
+            body = loop_body(f, hb)
+            inits = [n for n in f.events("S") if n in body and T.path(n.ev["lhs"]) == part and n.ev.get("o") == "=" and
+                     isinstance(n.ev.get("rhs"), dict) and tot in T.vars_in(n.ev["rhs"])]
+            if not inits:
+                continue
+            producers = set()
+            for n in inits:
+                for c in T.calls(n.ev["rhs"]):
+                    producers.add(c.get("id"))
+            bad = []
+            n_calls = 0
+            for c in f.call_nodes():
+                if c not in body:
+                    continue
+                n_calls += 1
+                if c.ev["x"].get("id") in producers or is_call(c, *PRINTERS):
+                    continue
+                hit = False
+                for a in c.ev["x"].get("a", []):
+                    a0 = T.strip(a)
+                    if isinstance(a0, dict) and a0.get("k") == "u" and a0.get("o") == "&":
+                        continue            # the callee updates the total itself
+                    if tot in T.vars_in(a):
+                        hit = True
+                if hit:
+                    bad.append(c)
+            out.append((f, tot, part, bad, n_calls))
+    return out
